@@ -202,7 +202,7 @@ func ref(kind, name string, weight int32, withFilter bool) gw.HTTPBackendRef {
 }
 
 // rule match shapes (after API defaulting every match has a path)
-const nMatchShapes = 3
+const nMatchShapes = 4
 
 func ruleMatches(shape int) []gw.HTTPRouteMatch {
 	switch shape {
@@ -210,6 +210,9 @@ func ruleMatches(shape int) []gw.HTTPRouteMatch {
 		return []gw.HTTPRouteMatch{{Path: pathMatch(gw.PathMatchPathPrefix, "/")}}
 	case 1: // one match with an own header condition
 		return []gw.HTTPRouteMatch{{Path: pathMatch(gw.PathMatchPathPrefix, "/a"), Headers: []gw.HTTPHeaderMatch{header("x-own", "1")}}}
+	case 3: // a method condition next to the path
+		get := gw.HTTPMethodGet
+		return []gw.HTTPRouteMatch{{Path: pathMatch(gw.PathMatchPathPrefix, "/d"), Method: &get}}
 	default: // two matches, the second with an own query condition
 		return []gw.HTTPRouteMatch{
 			{Path: pathMatch(gw.PathMatchExact, "/b")},
